@@ -193,6 +193,26 @@ func TestC10(t *testing.T) {
 		// draw the whole history first (against the reference model), then enumerate faults
 		mr := hist.NewMRunner()
 		var steps []hist.Step
+		if rapid.IntRange(0, 4).Draw(t, "link-maze") == 0 {
+			// a maze of links over three names: chains, loops, self-links, dangling links, links
+			// over existing entries; the calls that follow address the same three names
+			names := []string{"/p", "/q", "/r"}
+			if rapid.Bool().Draw(t, "maze-file") {
+				steps = append(steps, hist.Step{Op: "create", Path: "/r", Slot: 0}, hist.Step{Op: "write", Slot: 0, Size: 10, Dist: 3, Seed: 1}, hist.Step{Op: "close", Slot: 0})
+			}
+			for i, k := 0, rapid.IntRange(2, 4).Draw(t, "maze-links"); i < k; i++ {
+				steps = append(steps, hist.Step{Op: "symlink", Path: rapid.SampledFrom(names).Draw(t, "target"), Path2: rapid.SampledFrom(names).Draw(t, "link")})
+			}
+			// every name of the maze is opened (and stat-ed) once
+			for _, nm := range names {
+				steps = append(steps, hist.Step{Op: "stat", Path: nm}, hist.Step{Op: "open", Path: nm, Slot: 1}, hist.Step{Op: "close", Slot: 1})
+			}
+			for _, st := range steps {
+				mr.Do(st)
+			}
+			g.Comps = []string{"p", "q", "r"}
+			live.S.Class("link-maze")
+		}
 		for i := 0; i < n; i++ {
 			s := g.Draw(t, mr)
 			mr.Do(s)
